@@ -238,6 +238,12 @@ func visitHarnesses(quick, thorough map[string]int) []harness {
 			// a default clause between two cases needs clause lists of three
 			q, t = withBound(q, "B", 3), withBound(t, "B", 3)
 		}
+		if n == "typeUnparen" {
+			// a type-expression rewriter: the interesting shapes (a parenthesised channel type inside a
+			// channel type ...) are three levels of node kinds deep; the default budget reached them
+			// in one run out of two
+			q = withBound(withBound(q, "paths", 40000), "wall_s", 45)
+		}
 		if n == "mapKey" {
 			// the checker looks for whitespace at the ends of constant string keys: the text of
 			// string constants is symbolic (<= 3 bytes) instead of the 4-entry menu
